@@ -176,8 +176,7 @@ def init_worker():
 
 def reset_protocol():
     """TagExpressionProtocol._current is process-wide: drop it"""
-    if "_current" in P.__dict__:
-        delattr(P, "_current")
+    P.use(P.DEFAULT)        # public API only: the state of a fresh process (current() == DEFAULT)
 
 
 def real_mask(expr, rows):
